@@ -1,1 +1,898 @@
-//! C13 harnesses.
+//! C13 — commands on the wire decode to exactly what the caller asked for.
+//! Every DriverProxy request is issued against a real ManyToOneRingBuffer (empty, tail = head = 0, correlation
+//! counter symbolic) and the ring memory is then decoded by an INDEPENDENT decoder: all offsets below are the
+//! Aeron control protocol layout (aeron_command.h, packed(4)) and the ring-buffer record/trailer layout
+//! (RecordDescriptor / RingBufferDescriptor), written as literal numbers — no flyweight, no record_descriptor helper.
+//!
+//! Decided per request: exactly one record (tail advanced by align8(8 + body)), type code, record length, client id,
+//! correlation id (== counter value before the call, counter advanced), every field and every string/key/token byte,
+//! and every other byte of the ring memory unchanged. A request that cannot be encoded (longer than the proxy's
+//! 512-byte command buffer, or than the ring's maximum message) must come back as Err with the ring untouched; one
+//! that can must be accepted. The harnesses are NOT loud: a panic inside the request is a violation.
+//!
+//! Finding (solver, then native replay /verif/native/tests/c13.rs): before the repair every non-encodable request
+//! (channel 489 B for publications, 481 B for subscriptions, 485 B for destinations, token 493 B, counter key 112 B +
+//! label 373..380 B - both within the counters' legal maxima) hit AtomicBuffer::bounds_check's assert! inside the
+//! flyweight setters instead of returning Err. Repair in src/driver_proxy.rs: check_command_length() before encoding.
+//!
+//! Cost model that shaped this file (measured): string LENGTHS are concrete per instance (a symbolic length next to
+//! fs= did not finish); the ring memory is a repr(C) struct, not one byte array (see RingMem); comparisons are wide
+//! loads through raw pointers with concrete loop bounds; `Result<_, AeronError>` values are moved as little as
+//! possible (each move is 1-3 s of symex time).
+use crate::concurrent::atomic_buffer::AtomicBuffer;
+use crate::concurrent::ring_buffer::ManyToOneRingBuffer;
+use crate::driver_proxy::DriverProxy;
+use crate::utils::types::Index;
+use std::ffi::CString;
+use std::sync::Arc;
+
+// ---- protocol tables (independent of the crate) ----------------------------------------------------------------
+const ADD_PUBLICATION: i32 = 0x01;
+const REMOVE_PUBLICATION: i32 = 0x02;
+const ADD_EXCLUSIVE_PUBLICATION: i32 = 0x03;
+const ADD_SUBSCRIPTION: i32 = 0x04;
+const REMOVE_SUBSCRIPTION: i32 = 0x05;
+const CLIENT_KEEPALIVE: i32 = 0x06;
+const ADD_DESTINATION: i32 = 0x07;
+const REMOVE_DESTINATION: i32 = 0x08;
+const ADD_COUNTER: i32 = 0x09;
+const REMOVE_COUNTER: i32 = 0x0A;
+const CLIENT_CLOSE: i32 = 0x0B;
+const ADD_RCV_DESTINATION: i32 = 0x0C;
+const REMOVE_RCV_DESTINATION: i32 = 0x0D;
+const TERMINATE_DRIVER: i32 = 0x0E;
+
+/// ring trailer (after the data area): tail @+128, head cache @+256, head @+384, correlation counter @+512, consumer
+/// heartbeat @+640; trailer length 768 (RingBufferDescriptor) - laid out in `RingMem` below.
+const TRAILER: usize = 768;
+
+/// record: i32 length @0, i32 type @4, body @8; records are 8-byte aligned.
+const REC_HDR: usize = 8;
+/// body offsets of the command structs
+const PUB_FIXED: usize = 24; // client i64 @0, correlation i64 @8, stream i32 @16, channel length i32 @20, channel @24
+const SUB_FIXED: usize = 32; // client, correlation, registration correlation i64 @16, stream i32 @24, channel length @28, channel @32
+const DEST_FIXED: usize = 28; // client, correlation, registration i64 @16, channel length i32 @24, channel @28
+const REMOVE_LEN: usize = 24; // client, correlation, registration i64 @16
+const CORRELATED_LEN: usize = 16; // client i64 @0, correlation i64 @8
+const COUNTER_FIXED: usize = 24; // client, correlation, type i32 @16, key length i32 @20, key @24, label length @24+align4(key)
+const TERM_FIXED: usize = 20; // client, correlation, token length i32 @16, token @20
+
+/// The proxy encodes into a 512-byte command buffer: a request whose encoding is longer cannot be encoded.
+const COMMAND_BUFFER: usize = 512;
+
+/// Backing store of the to-driver ring: `R + REST` bytes of data area followed by the 768-byte trailer. It is one
+/// contiguous repr(C) object handed to the ring as a flat byte buffer, but declared as a struct so that CBMC keeps the
+/// trailer words and the part of the data area where the record lands (`rec`) as separate small SSA objects. (As a
+/// single [u8; N] with fs=N+1 every store into it costs 0.3 s at 1792 bytes and 2.5 s at 4864 bytes of symex time.)
+#[repr(C, align(16))]
+struct RingMem<const R: usize, const REST: usize> {
+    rec: [u8; R],
+    rest: [u8; REST],
+    pad0: [u8; 128],
+    tail: i64, // capacity + 128
+    pad1: [u8; 120],
+    head_cache: i64, // capacity + 256
+    pad2: [u8; 120],
+    head: i64, // capacity + 384
+    pad3: [u8; 120],
+    corr: i64, // capacity + 512
+    pad4: [u8; 120],
+    heartbeat: i64, // capacity + 640
+    pad5: [u8; 120],
+}
+
+/// short requests: capacity 1024 (max message 128), record area 64 bytes
+const SR: usize = 64;
+const SREST: usize = 1024 - SR;
+/// long requests: capacity 4096 (max message 512 = the whole command buffer), record area 528 bytes
+const BR: usize = 528;
+const BREST: usize = 4096 - BR;
+
+// Comparisons over memory: all loop conditions are concrete, no branch on data, and as few / as wide loads as possible
+// (with fs= raised every non-literal index into an array makes CBMC rebuild the whole array).
+/// one access: W little-endian u64 words at byte offset `at`
+unsafe fn words<const W: usize>(p: *const u8, at: usize) -> [u64; W] {
+    (p.add(at) as *const [u64; W]).read_unaligned()
+}
+
+/// every byte of [from, to) behind `p` equals `fill` (all loop conditions are concrete; no branch on data)
+unsafe fn filled(p: *const u8, from: usize, to: usize, fill: u8) -> bool {
+    let f8 = u64::from_le_bytes([fill; 8]);
+    let mut ok = true;
+    let mut i = from;
+    while i + 128 <= to {
+        let w = words::<16>(p, i);
+        let mut k = 0;
+        while k < 16 {
+            ok &= w[k] == f8;
+            k += 1;
+        }
+        i += 128;
+    }
+    while i + 32 <= to {
+        let w = words::<4>(p, i);
+        ok &= (w[0] == f8) & (w[1] == f8) & (w[2] == f8) & (w[3] == f8);
+        i += 32;
+    }
+    while i + 8 <= to {
+        ok &= words::<1>(p, i)[0] == f8;
+        i += 8;
+    }
+    while i < to {
+        ok &= *p.add(i) == fill;
+        i += 1;
+    }
+    ok
+}
+
+/// bytes [at, at+len) behind `p` equal bytes [0, len) behind `q`
+unsafe fn same(p: *const u8, at: usize, q: *const u8, len: usize) -> bool {
+    let mut ok = true;
+    let mut i = 0;
+    while i + 128 <= len {
+        let x = words::<16>(p, at + i);
+        let y = words::<16>(q, i);
+        let mut k = 0;
+        while k < 16 {
+            ok &= x[k] == y[k];
+            k += 1;
+        }
+        i += 128;
+    }
+    while i + 32 <= len {
+        let x = words::<4>(p, at + i);
+        let y = words::<4>(q, i);
+        ok &= (x[0] == y[0]) & (x[1] == y[1]) & (x[2] == y[2]) & (x[3] == y[3]);
+        i += 32;
+    }
+    while i + 8 <= len {
+        ok &= words::<1>(p, at + i)[0] == words::<1>(q, i)[0];
+        i += 8;
+    }
+    while i < len {
+        ok &= *p.add(at + i) == *q.add(i);
+        i += 1;
+    }
+    ok
+}
+
+// field reads at literal offsets of the record area
+macro_rules! r32 {
+    ($a:expr, $at:expr) => {
+        i32::from_le_bytes([$a[$at], $a[$at + 1], $a[$at + 2], $a[$at + 3]])
+    };
+}
+macro_rules! r64 {
+    ($a:expr, $at:expr) => {
+        i64::from_le_bytes([$a[$at], $a[$at + 1], $a[$at + 2], $a[$at + 3], $a[$at + 4], $a[$at + 5], $a[$at + 6], $a[$at + 7]])
+    };
+}
+
+fn align8(v: usize) -> usize {
+    (v + 7) & !7
+}
+
+fn align4(v: usize) -> usize {
+    (v + 3) & !3
+}
+
+/// `L` bytes of request data. Up to 8 bytes: all symbolic. Longer: constant filler with symbolic bytes at the first 8
+/// positions, in the middle and at the end (concrete positions, symbolic values). `nonzero`: C-string content.
+fn blob<const L: usize>(nonzero: bool) -> [u8; L] {
+    let mut a = [0x61u8; L];
+    let s: [u8; 10] = kani::any();
+    let mut i = 0;
+    while i < 10 {
+        if nonzero {
+            kani::assume(s[i] != 0);
+        }
+        if i < 8 && i < L {
+            a[i] = s[i];
+        }
+        i += 1;
+    }
+    if L > 8 {
+        a[L / 2] = s[8];
+        a[L - 1] = s[9];
+    }
+    a
+}
+
+fn cstring(s: &[u8]) -> CString {
+    unsafe { CString::from_vec_unchecked(s.to_vec()) }
+}
+
+/// Can a body of this length be encoded at all: it has to fit the proxy's command buffer and the ring's maximum
+/// message length (capacity / 8).
+fn encodable(cap: usize, body: usize) -> bool {
+    body <= COMMAND_BUFFER && body <= cap / 8
+}
+
+/// Shared skeleton, one request against a ring of capacity R + REST.
+/// Pre-state: every byte of the ring memory holds one symbolic fill value, except: the ring is empty at index 0
+/// (tail = head = head cache = 0: layout concrete), the correlation counter and the heartbeat are any i64.
+/// `call` issues the request and returns (accepted, id): the id the request returned, or for the requests that return
+/// none the fixed id the protocol puts on the wire; `fresh` = the request draws a fresh correlation id; `fields` decodes the request-specific fixed fields from the start of the data area (record
+/// header @0, body @8); `a` / `b` are the variable-length data expected at ring offset `a_at` / `b_at`, each preceded
+/// by its i32 length (offset 0 = the request has no such field).
+fn run<const R: usize, const REST: usize, const A: usize, const B: usize>(
+    code: i32,
+    body: usize,
+    fresh: bool,
+    call: impl FnOnce(&DriverProxy) -> (bool, i64),
+    fields: impl FnOnce(&[u8; R]) -> bool,
+    a: [u8; A],
+    a_at: usize,
+    b: [u8; B],
+    b_at: usize,
+) {
+    let cap = R + REST;
+    let fill: u8 = kani::any();
+    let c0: i64 = kani::any();
+    let hb: i64 = kani::any();
+    let mut m = RingMem::<R, REST> {
+        rec: [fill; R],
+        rest: [fill; REST],
+        pad0: [fill; 128],
+        tail: 0,
+        pad1: [fill; 120],
+        head_cache: 0,
+        pad2: [fill; 120],
+        head: 0,
+        pad3: [fill; 120],
+        corr: c0,
+        pad4: [fill; 120],
+        heartbeat: hb,
+        pad5: [fill; 120],
+    };
+    assert!(std::mem::size_of::<RingMem<R, REST>>() == cap + TRAILER, "C13: harness ring memory is capacity + trailer, no padding");
+    let buffer = AtomicBuffer::new(&mut m as *mut RingMem<R, REST> as *mut u8, (cap + TRAILER) as Index);
+    let ring = match ManyToOneRingBuffer::new(buffer) {
+        Ok(r) => r,
+        Err(_) => {
+            assert!(false, "C13: harness ring has a power-of-two capacity");
+            loop {}
+        }
+    };
+    let proxy = DriverProxy::new(Arc::new(ring));
+    // the client id is the correlation id drawn at construction
+    assert!(proxy.client_id() == c0, "C13: client id is the correlation counter value taken at construction");
+    let next = c0.wrapping_add(1);
+    let fits = encodable(cap, body);
+    let rec = REC_HDR + body;
+    let used: i64 = if fresh { 1 } else { 0 };
+    let (accepted, corr) = call(&proxy);
+    let written;
+    if accepted {
+        written = rec;
+        assert!(fits, "C13: a request that cannot be encoded was accepted");
+        assert!(rec <= R, "C13: harness record area holds the record");
+        assert!(!fresh | (corr == next), "C13: returned correlation id is the correlation counter value before the call");
+        assert!(m.tail == align8(rec) as i64, "C13: exactly one record was added (tail advanced by the aligned record length)");
+        assert!(m.corr == next.wrapping_add(used), "C13: correlation counter advanced once per fresh id");
+        assert!(r32!(m.rec, 0) == rec as i32, "C13: record length is header + fixed part + strings");
+        assert!(r32!(m.rec, 4) == code, "C13: record type code is the control protocol constant of the request");
+        assert!(r64!(m.rec, 8) == c0, "C13: client id on the wire is the proxy's client id");
+        assert!(r64!(m.rec, 16) == corr, "C13: correlation id on the wire");
+        assert!(fields(&m.rec), "C13: decoded fixed fields equal the caller's arguments");
+        let p = m.rec.as_ptr();
+        unsafe {
+            if a_at != 0 {
+                assert!((p.add(a_at - 4) as *const i32).read_unaligned() == A as i32, "C13: length of the first variable field on the wire");
+                assert!(same(p, a_at, a.as_ptr(), A), "C13: bytes of the first variable field (channel / key / token) on the wire");
+            }
+            if b_at != 0 {
+                assert!((p.add(b_at - 4) as *const i32).read_unaligned() == B as i32, "C13: length of the second variable field on the wire");
+                assert!(same(p, b_at, b.as_ptr(), B), "C13: bytes of the second variable field (label) on the wire");
+            }
+        }
+    } else {
+        written = 0;
+        assert!(!fits, "C13: a request that fits the command buffer and the ring was rejected");
+        assert!(m.tail == 0, "C13: a rejected request leaves the tail where it was");
+    }
+    assert!((m.head == 0) & (m.head_cache == 0) & (m.heartbeat == hb), "C13: a request does not move the consumer's words");
+    let untouched = unsafe {
+        filled(m.rec.as_ptr(), written, R, fill)
+            & filled(m.rest.as_ptr(), 0, REST, fill)
+            & filled(m.pad0.as_ptr(), 0, 128, fill)
+            & filled(m.pad1.as_ptr(), 0, 120, fill)
+            & filled(m.pad2.as_ptr(), 0, 120, fill)
+            & filled(m.pad3.as_ptr(), 0, 120, fill)
+            & filled(m.pad4.as_ptr(), 0, 120, fill)
+            & filled(m.pad5.as_ptr(), 0, 120, fill)
+    };
+    assert!(untouched, "C13: nothing outside the record, the tail and the correlation counter changed (a rejected request writes nothing)");
+    kani::cover!(accepted == fits, "[must] outcome reached: accepted iff encodable");
+    std::mem::forget(proxy);
+}
+
+/// Issue the request and reduce the result to (accepted, id) with as few moves of `Result<_, AeronError>` as possible
+/// (each costs seconds of symex time); the error is leaked, never dropped.
+macro_rules! outcome {
+    ($call:expr, $ok:pat => $id:expr) => {
+        match $call {
+            Ok($ok) => (true, $id),
+            Err(e) => {
+                std::mem::forget(e);
+                (false, 0)
+            }
+        }
+    };
+}
+
+// ---- (channel, stream id): add_publication 0x01 / add_exclusive_publication 0x03 ---------------------------------
+fn publication<const R: usize, const REST: usize, const L: usize>(exclusive: bool) {
+    let ch = blob::<L>(true);
+    let stream: i32 = kani::any();
+    run::<R, REST, L, 0>(
+        if exclusive { ADD_EXCLUSIVE_PUBLICATION } else { ADD_PUBLICATION },
+        PUB_FIXED + L,
+        true,
+        |p| {
+            if exclusive {
+                outcome!(p.add_exclusive_publication(cstring(&ch), stream), id => id)
+            } else {
+                outcome!(p.add_publication(cstring(&ch), stream), id => id)
+            }
+        },
+        |h| r32!(h, 8 + 16) == stream,
+        ch,
+        8 + 24,
+        [],
+        0,
+    );
+}
+
+// ---- add_subscription 0x04: registration correlation id is -1 (none) ---------------------------------------------
+fn subscription<const R: usize, const REST: usize, const L: usize>() {
+    let ch = blob::<L>(true);
+    let stream: i32 = kani::any();
+    run::<R, REST, L, 0>(
+        ADD_SUBSCRIPTION,
+        SUB_FIXED + L,
+        true,
+        |p| outcome!(p.add_subscription(cstring(&ch), stream), id => id),
+        |h| (r64!(h, 8 + 16) == -1) & (r32!(h, 8 + 24) == stream),
+        ch,
+        8 + 32,
+        [],
+        0,
+    );
+}
+
+// ---- (registration id, channel): add/remove destination 0x07/0x08, add/remove rcv destination 0x0C/0x0D ----------
+fn destination<const R: usize, const REST: usize, const L: usize>(which: u8) {
+    let ch = blob::<L>(true);
+    let reg: i64 = kani::any();
+    let code = match which {
+        0 => ADD_DESTINATION,
+        1 => REMOVE_DESTINATION,
+        2 => ADD_RCV_DESTINATION,
+        _ => REMOVE_RCV_DESTINATION,
+    };
+    run::<R, REST, L, 0>(
+        code,
+        DEST_FIXED + L,
+        true,
+        |p| {
+            let c = cstring(&ch);
+            match which {
+                0 => outcome!(p.add_destination(reg, c), id => id),
+                1 => outcome!(p.remove_destination(reg, c), id => id),
+                2 => outcome!(p.add_rcv_destination(reg, c), id => id),
+                _ => outcome!(p.remove_rcv_destination(reg, c), id => id),
+            }
+        },
+        |h| r64!(h, 8 + 16) == reg,
+        ch,
+        8 + 28,
+        [],
+        0,
+    );
+}
+
+// ---- (registration id): remove_publication 0x02 / remove_subscription 0x05 / remove_counter 0x0A ------------------
+fn remove(which: u8) {
+    let reg: i64 = kani::any();
+    let code = match which {
+        0 => REMOVE_PUBLICATION,
+        1 => REMOVE_SUBSCRIPTION,
+        _ => REMOVE_COUNTER,
+    };
+    run::<SR, SREST, 0, 0>(
+        code,
+        REMOVE_LEN,
+        true,
+        |p| match which {
+            0 => outcome!(p.remove_publication(reg), id => id),
+            1 => outcome!(p.remove_subscription(reg), id => id),
+            _ => outcome!(p.remove_counter(reg), id => id),
+        },
+        |h| r64!(h, 8 + 16) == reg,
+        [],
+        0,
+        [],
+        0,
+    );
+}
+
+// ---- add_counter 0x09: type id, key (any bytes), label; the label length sits 4-byte aligned after the key --------
+fn counter<const R: usize, const REST: usize, const K: usize, const L: usize>() {
+    let key = blob::<K>(false);
+    let label = blob::<L>(true);
+    let type_id: i32 = kani::any();
+    run::<R, REST, K, L>(
+        ADD_COUNTER,
+        COUNTER_FIXED + align4(K) + 4 + L,
+        true,
+        |p| outcome!(p.add_counter(type_id, &key, cstring(&label)), id => id),
+        |h| r32!(h, 8 + 16) == type_id,
+        key,
+        8 + 24,
+        label,
+        8 + 24 + align4(K) + 4,
+    );
+}
+
+// ---- terminate_driver 0x0E: correlation id -1, token ----------------------------------------------------------
+fn terminate<const R: usize, const REST: usize, const L: usize>() {
+    let token = blob::<L>(false);
+    run::<R, REST, L, 0>(
+        TERMINATE_DRIVER,
+        TERM_FIXED + L,
+        false,
+        |p| outcome!(p.terminate_driver(&token), () => -1),
+        |_| true,
+        token,
+        8 + 20,
+        [],
+        0,
+    );
+}
+
+// ---- client keepalive 0x06 (correlation id 0, no fresh id) / client close 0x0B -----------------------------------
+fn keepalive() {
+    run::<SR, SREST, 0, 0>(
+        CLIENT_KEEPALIVE,
+        CORRELATED_LEN,
+        false,
+        |p| outcome!(p.send_client_keepalive(), () => 0),
+        |_| true,
+        [],
+        0,
+        [],
+        0,
+    );
+}
+
+fn client_close() {
+    run::<SR, SREST, 0, 0>(CLIENT_CLOSE, CORRELATED_LEN, true, |p| outcome!(p.client_close(), id => id), |_| true, [], 0, [], 0);
+}
+
+macro_rules! proof {
+    ($name:ident, $body:block) => {
+        #[kani::proof]
+        fn $name() $body
+    };
+}
+
+// =====================================================================================================================
+// Short requests: every request method, ids fully symbolic, all string/key/token bytes symbolic, lengths 0,1,3,4,5,8
+// (every residue of the 4-byte field alignment and of the 8-byte record alignment). Several instances run one after
+// the other in a harness, each on its own fresh ring. Ring capacity 1024. Quick tier: all six lengths for one method
+// per message layout, lengths 4,5,8 for its siblings (same layout, other type code); thorough tier: the rest.
+// =====================================================================================================================
+// @verif tier=quick unwind=40 fs=513
+proof!(c13_add_publication_len_0_1_3, {
+    publication::<SR, SREST, 0>(false);
+    publication::<SR, SREST, 1>(false);
+    publication::<SR, SREST, 3>(false);
+});
+// @verif tier=quick unwind=40 fs=513
+proof!(c13_add_publication_len_4_5_8, {
+    publication::<SR, SREST, 4>(false);
+    publication::<SR, SREST, 5>(false);
+    publication::<SR, SREST, 8>(false);
+});
+// @verif tier=thorough unwind=40 fs=513
+proof!(c13_add_exclusive_publication_len_0_1_3, {
+    publication::<SR, SREST, 0>(true);
+    publication::<SR, SREST, 1>(true);
+    publication::<SR, SREST, 3>(true);
+});
+// @verif tier=quick unwind=40 fs=513
+proof!(c13_add_exclusive_publication_len_4_5_8, {
+    publication::<SR, SREST, 4>(true);
+    publication::<SR, SREST, 5>(true);
+    publication::<SR, SREST, 8>(true);
+});
+// @verif tier=quick unwind=40 fs=513
+proof!(c13_add_subscription_len_0_1_3, {
+    subscription::<SR, SREST, 0>();
+    subscription::<SR, SREST, 1>();
+    subscription::<SR, SREST, 3>();
+});
+// @verif tier=quick unwind=40 fs=513
+proof!(c13_add_subscription_len_4_5_8, {
+    subscription::<SR, SREST, 4>();
+    subscription::<SR, SREST, 5>();
+    subscription::<SR, SREST, 8>();
+});
+// @verif tier=quick unwind=40 fs=513
+proof!(c13_add_destination_len_0_1_3, {
+    destination::<SR, SREST, 0>(0);
+    destination::<SR, SREST, 1>(0);
+    destination::<SR, SREST, 3>(0);
+});
+// @verif tier=quick unwind=40 fs=513
+proof!(c13_add_destination_len_4_5_8, {
+    destination::<SR, SREST, 4>(0);
+    destination::<SR, SREST, 5>(0);
+    destination::<SR, SREST, 8>(0);
+});
+// @verif tier=thorough unwind=40 fs=513
+proof!(c13_remove_destination_len_0_1_3, {
+    destination::<SR, SREST, 0>(1);
+    destination::<SR, SREST, 1>(1);
+    destination::<SR, SREST, 3>(1);
+});
+// @verif tier=quick unwind=40 fs=513
+proof!(c13_remove_destination_len_4_5_8, {
+    destination::<SR, SREST, 4>(1);
+    destination::<SR, SREST, 5>(1);
+    destination::<SR, SREST, 8>(1);
+});
+// @verif tier=thorough unwind=40 fs=513
+proof!(c13_add_rcv_destination_len_0_1_3, {
+    destination::<SR, SREST, 0>(2);
+    destination::<SR, SREST, 1>(2);
+    destination::<SR, SREST, 3>(2);
+});
+// @verif tier=quick unwind=40 fs=513
+proof!(c13_add_rcv_destination_len_4_5_8, {
+    destination::<SR, SREST, 4>(2);
+    destination::<SR, SREST, 5>(2);
+    destination::<SR, SREST, 8>(2);
+});
+// @verif tier=thorough unwind=40 fs=513
+proof!(c13_remove_rcv_destination_len_0_1_3, {
+    destination::<SR, SREST, 0>(3);
+    destination::<SR, SREST, 1>(3);
+    destination::<SR, SREST, 3>(3);
+});
+// @verif tier=quick unwind=40 fs=513
+proof!(c13_remove_rcv_destination_len_4_5_8, {
+    destination::<SR, SREST, 4>(3);
+    destination::<SR, SREST, 5>(3);
+    destination::<SR, SREST, 8>(3);
+});
+// @verif tier=quick unwind=40 fs=513
+proof!(c13_remove_publication_subscription_counter, {
+    remove(0);
+    remove(1);
+    remove(2);
+});
+// @verif tier=quick unwind=40 fs=513
+proof!(c13_client_keepalive_and_close, {
+    keepalive();
+    client_close();
+});
+// @verif tier=quick unwind=40 fs=513
+proof!(c13_terminate_driver_len_0_1_3, {
+    terminate::<SR, SREST, 0>();
+    terminate::<SR, SREST, 1>();
+    terminate::<SR, SREST, 3>();
+});
+// @verif tier=quick unwind=40 fs=513
+proof!(c13_terminate_driver_len_4_5_8, {
+    terminate::<SR, SREST, 4>();
+    terminate::<SR, SREST, 5>();
+    terminate::<SR, SREST, 8>();
+});
+// add_counter: key length x label length; the quick tier takes a diagonal through the grid, the thorough tier the rest
+// @verif tier=quick unwind=40 fs=513
+proof!(c13_add_counter_k0l0_k1l3_k3l1, {
+    counter::<SR, SREST, 0, 0>();
+    counter::<SR, SREST, 1, 3>();
+    counter::<SR, SREST, 3, 1>();
+});
+// @verif tier=quick unwind=40 fs=513
+proof!(c13_add_counter_k4l4_k5l8_k8l5, {
+    counter::<SR, SREST, 4, 4>();
+    counter::<SR, SREST, 5, 8>();
+    counter::<SR, SREST, 8, 5>();
+});
+// @verif tier=quick unwind=40 fs=513
+proof!(c13_add_counter_k0l8_k8l0_k1l1, {
+    counter::<SR, SREST, 0, 8>();
+    counter::<SR, SREST, 8, 0>();
+    counter::<SR, SREST, 1, 1>();
+});
+// @verif tier=thorough unwind=40 fs=513
+proof!(c13_add_counter_grid_key0, {
+    counter::<SR, SREST, 0, 1>();
+    counter::<SR, SREST, 0, 3>();
+    counter::<SR, SREST, 0, 4>();
+    counter::<SR, SREST, 0, 5>();
+});
+// @verif tier=thorough unwind=40 fs=513
+proof!(c13_add_counter_grid_key1, {
+    counter::<SR, SREST, 1, 0>();
+    counter::<SR, SREST, 1, 4>();
+    counter::<SR, SREST, 1, 5>();
+    counter::<SR, SREST, 1, 8>();
+});
+// @verif tier=thorough unwind=40 fs=513
+proof!(c13_add_counter_grid_key3, {
+    counter::<SR, SREST, 3, 0>();
+    counter::<SR, SREST, 3, 3>();
+    counter::<SR, SREST, 3, 4>();
+    counter::<SR, SREST, 3, 5>();
+    counter::<SR, SREST, 3, 8>();
+});
+// @verif tier=thorough unwind=40 fs=513
+proof!(c13_add_counter_grid_key4, {
+    counter::<SR, SREST, 4, 0>();
+    counter::<SR, SREST, 4, 1>();
+    counter::<SR, SREST, 4, 3>();
+    counter::<SR, SREST, 4, 5>();
+    counter::<SR, SREST, 4, 8>();
+});
+// @verif tier=thorough unwind=40 fs=513
+proof!(c13_add_counter_grid_key5, {
+    counter::<SR, SREST, 5, 0>();
+    counter::<SR, SREST, 5, 1>();
+    counter::<SR, SREST, 5, 3>();
+    counter::<SR, SREST, 5, 4>();
+    counter::<SR, SREST, 5, 5>();
+});
+// @verif tier=thorough unwind=40 fs=513
+proof!(c13_add_counter_grid_key8, {
+    counter::<SR, SREST, 8, 1>();
+    counter::<SR, SREST, 8, 3>();
+    counter::<SR, SREST, 8, 4>();
+    counter::<SR, SREST, 8, 8>();
+});
+
+// =====================================================================================================================
+// The ring's own limit: capacity 1024 => messages longer than 128 bytes are refused by the ring; the proxy must turn
+// that into Err and nothing may be written. Record area 144 bytes so that the longest accepted message fits in it.
+// =====================================================================================================================
+// @verif tier=quick unwind=40 fs=513
+proof!(c13_ring_limit_longest_message_accepted, {
+    publication::<144, 880, 104>(false); // body 24 + 104 = 128
+});
+// @verif tier=quick unwind=40 fs=513
+proof!(c13_ring_limit_message_too_long_rejected, {
+    publication::<144, 880, 105>(false);
+});
+// @verif tier=thorough unwind=40 fs=513
+proof!(c13_ring_limit_channel_255_rejected, {
+    subscription::<144, 880, 255>();
+});
+
+// =====================================================================================================================
+// Long requests against a ring that takes 512-byte messages (capacity 4096): the only limit is the proxy's 512-byte
+// command buffer. Concrete lengths around each request's boundary; data = constant filler with 10 symbolic bytes.
+// One request per harness. Expected by the property: fits => accepted and exact; does not fit => Err, ring untouched.
+// Quick tier: the longest encodable and the shortest non-encodable length of every request (+ 255 / 480); thorough
+// tier: the lengths further out. (A rejected request costs 25-30 s: every move of a Result<_, AeronError> through `?`
+// is seconds of symex time.)
+// =====================================================================================================================
+// @verif tier=quick unwind=40 fs=529
+proof!(c13_long_add_publication_len255, {
+    publication::<BR, BREST, 255>(false);
+});
+// @verif tier=quick unwind=40 fs=529
+proof!(c13_long_add_publication_len480, {
+    publication::<BR, BREST, 480>(false);
+});
+// @verif tier=quick unwind=40 fs=529
+proof!(c13_long_add_publication_len488, {
+    publication::<BR, BREST, 488>(false);
+});
+// @verif tier=quick unwind=40 fs=529
+proof!(c13_long_add_publication_len489, {
+    publication::<BR, BREST, 489>(false);
+});
+// @verif tier=thorough unwind=40 fs=529
+proof!(c13_long_add_publication_len600, {
+    publication::<BR, BREST, 600>(false);
+});
+// @verif tier=quick unwind=40 fs=529
+proof!(c13_long_add_exclusive_publication_len488, {
+    publication::<BR, BREST, 488>(true);
+});
+// @verif tier=quick unwind=40 fs=529
+proof!(c13_long_add_exclusive_publication_len489, {
+    publication::<BR, BREST, 489>(true);
+});
+// @verif tier=thorough unwind=40 fs=529
+proof!(c13_long_add_exclusive_publication_len255, {
+    publication::<BR, BREST, 255>(true);
+});
+// @verif tier=thorough unwind=40 fs=529
+proof!(c13_long_add_exclusive_publication_len480, {
+    publication::<BR, BREST, 480>(true);
+});
+// @verif tier=thorough unwind=40 fs=529
+proof!(c13_long_add_exclusive_publication_len600, {
+    publication::<BR, BREST, 600>(true);
+});
+// @verif tier=quick unwind=40 fs=529
+proof!(c13_long_add_subscription_len255, {
+    subscription::<BR, BREST, 255>();
+});
+// @verif tier=quick unwind=40 fs=529
+proof!(c13_long_add_subscription_len480, {
+    subscription::<BR, BREST, 480>();
+});
+// @verif tier=quick unwind=40 fs=529
+proof!(c13_long_add_subscription_len481, {
+    subscription::<BR, BREST, 481>();
+});
+// @verif tier=thorough unwind=40 fs=529
+proof!(c13_long_add_subscription_len489, {
+    subscription::<BR, BREST, 489>();
+});
+// @verif tier=thorough unwind=40 fs=529
+proof!(c13_long_add_subscription_len600, {
+    subscription::<BR, BREST, 600>();
+});
+// @verif tier=quick unwind=40 fs=529
+proof!(c13_long_add_destination_len255, {
+    destination::<BR, BREST, 255>(0);
+});
+// @verif tier=quick unwind=40 fs=529
+proof!(c13_long_add_destination_len480, {
+    destination::<BR, BREST, 480>(0);
+});
+// @verif tier=quick unwind=40 fs=529
+proof!(c13_long_add_destination_len484, {
+    destination::<BR, BREST, 484>(0);
+});
+// @verif tier=quick unwind=40 fs=529
+proof!(c13_long_add_destination_len485, {
+    destination::<BR, BREST, 485>(0);
+});
+// @verif tier=thorough unwind=40 fs=529
+proof!(c13_long_add_destination_len489, {
+    destination::<BR, BREST, 489>(0);
+});
+// @verif tier=thorough unwind=40 fs=529
+proof!(c13_long_add_destination_len600, {
+    destination::<BR, BREST, 600>(0);
+});
+// @verif tier=quick unwind=40 fs=529
+proof!(c13_long_remove_destination_len484, {
+    destination::<BR, BREST, 484>(1);
+});
+// @verif tier=quick unwind=40 fs=529
+proof!(c13_long_remove_destination_len485, {
+    destination::<BR, BREST, 485>(1);
+});
+// @verif tier=thorough unwind=40 fs=529
+proof!(c13_long_remove_destination_len255, {
+    destination::<BR, BREST, 255>(1);
+});
+// @verif tier=thorough unwind=40 fs=529
+proof!(c13_long_remove_destination_len600, {
+    destination::<BR, BREST, 600>(1);
+});
+// @verif tier=quick unwind=40 fs=529
+proof!(c13_long_add_rcv_destination_len484, {
+    destination::<BR, BREST, 484>(2);
+});
+// @verif tier=quick unwind=40 fs=529
+proof!(c13_long_add_rcv_destination_len485, {
+    destination::<BR, BREST, 485>(2);
+});
+// @verif tier=thorough unwind=40 fs=529
+proof!(c13_long_add_rcv_destination_len255, {
+    destination::<BR, BREST, 255>(2);
+});
+// @verif tier=thorough unwind=40 fs=529
+proof!(c13_long_add_rcv_destination_len600, {
+    destination::<BR, BREST, 600>(2);
+});
+// @verif tier=quick unwind=40 fs=529
+proof!(c13_long_remove_rcv_destination_len484, {
+    destination::<BR, BREST, 484>(3);
+});
+// @verif tier=quick unwind=40 fs=529
+proof!(c13_long_remove_rcv_destination_len485, {
+    destination::<BR, BREST, 485>(3);
+});
+// @verif tier=thorough unwind=40 fs=529
+proof!(c13_long_remove_rcv_destination_len255, {
+    destination::<BR, BREST, 255>(3);
+});
+// @verif tier=thorough unwind=40 fs=529
+proof!(c13_long_remove_rcv_destination_len600, {
+    destination::<BR, BREST, 600>(3);
+});
+// add_counter: 24 + align4(key) + 4 + label <= 512. Key 112 and label 380 are the maxima the counters file can store.
+// @verif tier=quick unwind=40 fs=529
+proof!(c13_long_add_counter_key112_label372, {
+    counter::<BR, BREST, 112, 372>();
+});
+// @verif tier=thorough unwind=40 fs=529
+proof!(c13_long_add_counter_key112_label373, {
+    counter::<BR, BREST, 112, 373>();
+});
+// @verif tier=quick unwind=40 fs=529
+proof!(c13_long_add_counter_key112_label380, {
+    counter::<BR, BREST, 112, 380>();
+});
+// @verif tier=quick unwind=40 fs=529
+proof!(c13_long_add_counter_key0_label381, {
+    counter::<BR, BREST, 0, 381>();
+});
+// @verif tier=quick unwind=40 fs=529
+proof!(c13_long_add_counter_key0_label484, {
+    counter::<BR, BREST, 0, 484>();
+});
+// @verif tier=quick unwind=40 fs=529
+proof!(c13_long_add_counter_key0_label485, {
+    counter::<BR, BREST, 0, 485>();
+});
+// @verif tier=quick unwind=40 fs=529
+proof!(c13_long_add_counter_key484_label0, {
+    counter::<BR, BREST, 484, 0>();
+});
+// @verif tier=quick unwind=40 fs=529
+proof!(c13_long_add_counter_key485_label0, {
+    counter::<BR, BREST, 485, 0>();
+});
+// @verif tier=thorough unwind=40 fs=529
+proof!(c13_long_add_counter_key111_label372, {
+    counter::<BR, BREST, 111, 372>();
+});
+// @verif tier=thorough unwind=40 fs=529
+proof!(c13_long_add_counter_key109_label373, {
+    counter::<BR, BREST, 109, 373>();
+});
+// @verif tier=thorough unwind=40 fs=529
+proof!(c13_long_add_counter_key1_label380, {
+    counter::<BR, BREST, 1, 380>();
+});
+// @verif tier=quick unwind=40 fs=529
+proof!(c13_long_terminate_driver_token255, {
+    terminate::<BR, BREST, 255>();
+});
+// @verif tier=quick unwind=40 fs=529
+proof!(c13_long_terminate_driver_token492, {
+    terminate::<BR, BREST, 492>();
+});
+// @verif tier=quick unwind=40 fs=529
+proof!(c13_long_terminate_driver_token493, {
+    terminate::<BR, BREST, 493>();
+});
+// @verif tier=thorough unwind=40 fs=529
+proof!(c13_long_terminate_driver_token600, {
+    terminate::<BR, BREST, 600>();
+});
+
+// =====================================================================================================================
+// Vacuity witness: a decoder that looks for the stream id at the wrong offset must be refuted.
+// =====================================================================================================================
+// @verif tier=quick unwind=40 fs=513 twin=1
+proof!(c13_twin_stream_id_at_wrong_offset, {
+    let ch = blob::<5>(true);
+    let stream: i32 = kani::any();
+    run::<SR, SREST, 5, 0>(
+        ADD_PUBLICATION,
+        PUB_FIXED + 5,
+        true,
+        |p| outcome!(p.add_publication(cstring(&ch), stream), id => id),
+        |h| {
+            assert!(r32!(h, 8 + 20) == stream, "C13: TWIN stream id read from the channel-length slot");
+            true
+        },
+        ch,
+        8 + 24,
+        [],
+        0,
+    );
+});
